@@ -197,11 +197,6 @@ Fixpoint wf_node (T:node) (inpyc ispyc:bool) (n:node) {struct n} : bool :=
   end.
 Definition wf_tree (T:node) : bool := wf_node T false false T.
 
-(* FINDING class (sourceless): a .pyo that nothing supersedes is a version file by the documentation but no
-   importlib loader accepts the suffix. *)
-Definition no_live_pyo (T:node) : bool :=
-  forallb (fun f : lentry => negb (is_file f && is_rev_name true (snd (fst f)) && suffixb s_pyo (snd (fst f))
-                                 && negb (superseded T (fst (fst f)) (snd (fst f))))) (all_entries T).
 (* every configured item is a relative path inside the tree (not absolute, not a package resource), and a
    non-recursive location is not called ...__pycache__ (there os.walk order decides what is listed) *)
 Definition clean_config (i:input) : bool :=
@@ -213,4 +208,4 @@ Definition clean_config (i:input) : bool :=
   | Err _ => true
   end.
 Definition inclass_C19 (i:input) : bool :=
-  wf_tree (i_tree i) && clean_config i && (negb (i_sl i) || no_live_pyo (i_tree i)).
+  wf_tree (i_tree i) && clean_config i.
